@@ -560,6 +560,8 @@ def rule_inverse_blocks(ctx: Ctx) -> None:
 
 
 def run(ctx: Ctx) -> None:
+    from ..rules import tableau as _tbx
+    _tbx.rule_xz_rowops(ctx, ["graphiq/backends/stabilizer/functions/linalg.py", "graphiq/backends/stabilizer/functions/stabilizer.py"])
     from ..rules import bitform as _bitform
     _bitform.arm(ctx)
     rule_inverse_blocks(ctx)
